@@ -217,52 +217,61 @@ func c09Scenarios(tier string) []*mcrt.Scenario {
 	// "however the bytes are chunked in time"
 	f7 := ref.Frame([]byte{0x41})
 	paused := append(append(append([]byte{}, f7...), ref.TypedFrame(1005, 3, nil)...), ref.TypedFrame(1230, 2, nil)...)
-	for _, capN := range []int{0, 1} {
-		capN := capN
-		scs = append(scs, &mcrt.Scenario{
-			Name: fmt.Sprintf("pausing-source tolerance=50ms consumer-cap=%d", capN), Bound: 2, Horizon: 100000, Prune: true,
-			Body: func(x *mcrt.X) {
-				obs := &c09Obs{}
-				x.Data = obs
-				fs := &faultSrc{data: paused}
-				obs.fsrc = fs
-				ch := make(chan handler.Message, capN)
-				log := &consumerLog{}
-				obs.logs = append(obs.logs, log)
-				consumeSlowly("consumer0", ch, log, 200*time.Millisecond)
-				core := appcore.New(&jsonconfig.Config{TimeoutOnEOFMilliSeconds: 50, WaitTimeOnEOFMilliseconds: 10}, []chan handler.Message{ch})
-				obs.ret = core.HandleMessagesUntilEOF(T0, bufio.NewReader(fs))
-				obs.returned = true
-				mcrt.Close(ch)
-			},
-			Check: func(x *mcrt.X) *mcrt.Failure {
-				obs := x.Data.(*c09Obs)
-				if len(x.Panics) > 0 {
-					p := x.Panics[0]
-					return &mcrt.Failure{Kind: "panic in " + p.Thread + ": " + firstLine(p.Value) + " @" + p.Site, Detail: p.Stack}
-				}
-				if !obs.returned || x.End != mcrt.EndAllDone {
-					return &mcrt.Failure{Kind: "call-did-not-return end=" + x.End, Detail: fmt.Sprint(x.Blocked)}
-				}
-				fs := obs.fsrc
-				if fs.supplied < len(paused) {
-					// the reader stopped before the source had handed everything over:
-					// allowed after another error, or when - on the handler's own clock -
-					// the silence had lasted longer than the tolerance
-					if fs.lastErr == errOther {
-						return nil
+	// (time scales three orders of magnitude apart: nothing in the pipeline may
+	// depend on how long a pause lasts as long as it is within the tolerance)
+	type paceT struct {
+		tolMs, waitMs uint
+		pause         time.Duration
+	}
+	for _, pace := range []paceT{{50, 10, 200 * time.Millisecond}, {60000, 3000, 5 * time.Second}} {
+		for _, capN := range []int{0, 1} {
+			capN, pace := capN, pace
+			tol := time.Duration(pace.tolMs) * time.Millisecond
+			scs = append(scs, &mcrt.Scenario{
+				Name: fmt.Sprintf("pausing-source tolerance=%v consumer-cap=%d", tol, capN), Bound: 2, Horizon: 100000, Prune: true,
+				Body: func(x *mcrt.X) {
+					obs := &c09Obs{}
+					x.Data = obs
+					fs := &faultSrc{data: paused}
+					obs.fsrc = fs
+					ch := make(chan handler.Message, capN)
+					log := &consumerLog{}
+					obs.logs = append(obs.logs, log)
+					consumeSlowly("consumer0", ch, log, pace.pause)
+					core := appcore.New(&jsonconfig.Config{TimeoutOnEOFMilliSeconds: pace.tolMs, WaitTimeOnEOFMilliseconds: pace.waitMs}, []chan handler.Message{ch})
+					obs.ret = core.HandleMessagesUntilEOF(T0, bufio.NewReader(fs))
+					obs.returned = true
+					mcrt.Close(ch)
+				},
+				Check: func(x *mcrt.X) *mcrt.Failure {
+					obs := x.Data.(*c09Obs)
+					if len(x.Panics) > 0 {
+						p := x.Panics[0]
+						return &mcrt.Failure{Kind: "panic in " + p.Thread + ": " + firstLine(p.Value) + " @" + p.Site, Detail: p.Stack}
 					}
-					if silence := fs.lastErrAt.Sub(fs.firstEOF); silence <= 50*time.Millisecond {
-						return &mcrt.Failure{Kind: "reader-gave-up-within-the-EOF-tolerance", Detail: fmt.Sprintf("silence %v, tolerance 50ms, %d of %d bytes read; faults=%v", silence, fs.supplied, len(paused), fs.faults)}
+					if !obs.returned || x.End != mcrt.EndAllDone {
+						return &mcrt.Failure{Kind: "call-did-not-return end=" + x.End, Detail: fmt.Sprint(x.Blocked)}
 					}
-				}
-				if ok, d := sameAsSequential(obs.logs[0].msgs, paused[:fs.supplied]); !ok {
-					return &mcrt.Failure{Kind: "consumer-sequence-differs-from-sequential-framing after pauses of the source", Detail: fmt.Sprintf("%.300s faults=%v", d, fs.faults)}
-				}
-				harness.Outcome(fmt.Sprintf("pauses=%d", len(fs.faults)))
-				return nil
-			},
-		})
+					fs := obs.fsrc
+					if fs.supplied < len(paused) {
+						// the reader stopped before the source had handed everything over:
+						// allowed after another error, or when - on the handler's own clock -
+						// the silence had lasted longer than the tolerance
+						if fs.lastErr == errOther {
+							return nil
+						}
+						if silence := fs.lastErrAt.Sub(fs.firstEOF); silence <= tol {
+							return &mcrt.Failure{Kind: "reader-gave-up-within-the-EOF-tolerance", Detail: fmt.Sprintf("silence %v, tolerance %v, %d of %d bytes read; faults=%v", silence, tol, fs.supplied, len(paused), fs.faults)}
+						}
+					}
+					if ok, d := sameAsSequential(obs.logs[0].msgs, paused[:fs.supplied]); !ok {
+						return &mcrt.Failure{Kind: "consumer-sequence-differs-from-sequential-framing after pauses of the source", Detail: fmt.Sprintf("%.300s faults=%v", d, fs.faults)}
+					}
+					harness.Outcome(fmt.Sprintf("pauses=%d", len(fs.faults)))
+					return nil
+				},
+			})
+		}
 	}
 	// inputs around the 4096-byte buffer of bufio.Reader (default schedule; the
 	// source hands over everything that fits per Read)
